@@ -172,6 +172,7 @@ type acctView struct {
 	Code    []byte
 	Storage map[common.Hash]common.Hash // non-zero slots only
 	StorageRaw map[common.Hash]common.Hash // every stored entry (evermint keeps zero-valued entries)
+	Other      bool                        // evermint only: some other denomination is non-zero
 }
 
 func (v acctView) String() string {
@@ -198,6 +199,11 @@ func (w *world) evmView(ctx sdk.Context, a common.Address) acctView {
 	v.Exists = w.c.App.AccountKeeper.HasAccount(ctx, sdk.AccAddress(a.Bytes()))
 	v.Nonce = w.c.Nonce(ctx, a)
 	v.Balance = w.c.EvmBal(ctx, a)
+	for _, coin := range w.c.App.BankKeeper.GetAllBalances(ctx, sdk.AccAddress(a.Bytes())) {
+		if coin.Denom != w.c.Denom() && !coin.Amount.IsZero() {
+			v.Other = true
+		}
+	}
 	v.Code = k.GetCode(ctx, k.GetCodeHash(ctx, a.Bytes()))
 	k.ForEachStorage(ctx, a, func(key, val common.Hash) bool {
 		v.StorageRaw[key] = val
